@@ -393,7 +393,18 @@ def date_system_rule(ctx, prog, rid):
         raise AnalysisError("anchor vanished: Category._excel_date_number")
     key = "Category._excel_date_number"
     flag = f.node.args.args[1].arg
-    d = desugar(f.node)
+    from sa.inline import expand as _exp8
+
+    d = _exp8(prog, f, local_only=True)   # the arithmetic may live in a module-level function of the date value and the flag
+    flag_names = {flag}
+    for n_ in ast.walk(d):
+        # plain copies / bool() of the flag stand for the flag
+        if isinstance(n_, ast.Assign) and len(n_.targets) == 1 and isinstance(n_.targets[0], ast.Name):
+            v_ = n_.value
+            if (isinstance(v_, ast.Name) and v_.id == flag) or (isinstance(v_, ast.Call) and dotted(v_.func) == "bool" and len(v_.args) == 1
+                                                                  and isinstance(v_.args[0], ast.Name) and v_.args[0].id == flag):
+                flag_names.add(n_.targets[0].id)
+    assumed = [None]   # the value of the flag the current evaluation assumes (tables keyed by the flag are read with it)
 
     class Und(Exception):
         pass
@@ -450,12 +461,33 @@ def date_system_rule(ctx, prog, rid):
                 return base[1][e.attr]
         if isinstance(e, ast.Constant) and isinstance(e.value, int):
             return ("int", e.value)
+        # a table keyed by the date-system flag: `EPOCHS[uses_1904]` is the row of the flag value assumed for this evaluation
+        if isinstance(e, ast.Subscript) and isinstance(e.slice, ast.Name) and e.slice.id in flag_names and isinstance(e.value, (ast.Name, ast.Attribute)):
+            tnode = f.module.assigns.get(e.value.id) if isinstance(e.value, ast.Name) else None
+            if tnode is None and isinstance(e.value, ast.Attribute) and cat is not None:
+                a_ = prog.lookup_attr(cat, e.value.attr)
+                tnode = a_[1] if a_ else None
+            if isinstance(tnode, ast.Dict) and assumed[0] is not None:
+                for k_, v_ in zip(tnode.keys, tnode.values):
+                    if k_ is not None and prog.const(k_, f.module) is assumed[0]:
+                        return ev(v_, {})
+            raise Und("table `%s` keyed by the date-system flag" % ast.unparse(e))
+        # proleptic ordinals: date.toordinal() differences are day counts
+        if isinstance(e, ast.Call) and isinstance(e.func, ast.Attribute) and e.func.attr == "toordinal" and not e.args:
+            v = ev(e.func.value, env)
+            if v[0] == "date":
+                return ("ordc", v[1])
+            if v == ("label",):
+                return ("ordl",)
+            raise Und("toordinal() of %s" % ast.unparse(e.func.value))
         if isinstance(e, ast.Call) and len(e.args) == 3 and all(isinstance(a, ast.Attribute) and a.attr in ("year", "month", "day") for a in e.args):
             return ("label",)
         if isinstance(e, ast.BinOp) and isinstance(e.op, ast.Sub):
             l, r = ev(e.left, env), ev(e.right, env)
             if l == ("label",) and r[0] == "date":
                 return ("delta", r[1])
+            if l == ("ordl",) and r[0] == "ordc":
+                return ("days", r[1], 0)
             if l[0] == "days" and r[0] == "int":
                 return ("days", l[1], l[2] - r[1])
             raise Und("subtraction %s" % ast.unparse(e))
@@ -474,11 +506,13 @@ def date_system_rule(ctx, prog, rid):
 
     rows = []  # (flag value, epoch, add, [first day count from which this row applies / below which it applies])
     try:
+      for assume_ in (True, False):
+        assumed[0] = assume_
         for pth in P_.enum_paths(d.body):
             if pth.end != "return":
                 continue
             env = {}
-            flagv = None
+            flagv = assume_
             lo = hi = None  # the path applies to day counts in [lo, hi)
             feasible = True
             for evn in pth.events:
@@ -490,7 +524,7 @@ def date_system_rule(ctx, prog, rid):
                         if isinstance(st.value, ast.Attribute) and dotted(st.value) in ("datetime.date", "date"):
                             env[st.targets[0].id] = dotted(st.value)
                             continue
-                        if dotted(st.value) == "self._label":
+                        if dotted(st.value) == "self._label" or st.targets[0].id in flag_names:
                             continue
                         env[st.targets[0].id] = ev(st.value, env)
                     elif isinstance(st, ast.AugAssign) and isinstance(st.target, ast.Name) and isinstance(st.op, ast.Add):
@@ -508,7 +542,7 @@ def date_system_rule(ctx, prog, rid):
                     contradicted = False
                     for cj in evn[1].values:
                         at_ = P_.atoms(cj, True)
-                        if len(at_) == 1 and at_[0][0] == "truthy" and at_[0][1] == flag and flagv is not None:
+                        if len(at_) == 1 and at_[0][0] == "truthy" and at_[0][1] in flag_names and flagv is not None:
                             if at_[0][2] != flagv:
                                 contradicted = True  # this conjunct is false already: nothing more is learnt
                         elif len(at_) == 1 and at_[0][0] == "none" and isinstance(env.get(at_[0][1]), tuple):
@@ -527,7 +561,7 @@ def date_system_rule(ctx, prog, rid):
                             feasible = False
                             break
                         continue
-                    if atom[0] == "truthy" and atom[1] == flag:
+                    if atom[0] == "truthy" and atom[1] in flag_names:
                         if flagv is not None and flagv != atom[2]:
                             feasible = False
                         flagv = atom[2]
